@@ -17,7 +17,7 @@ def run_one(name):
     tmp = tempfile.mkdtemp(prefix="twinmx-")
     try:
         shutil.copytree("/repo/src", os.path.join(tmp, "src"), ignore=shutil.ignore_patterns("__pycache__"))
-        r = subprocess.run(["patch", "-p1", "-s", "--no-backup-if-mismatch", "-d", tmp, "-i", f"{V}/twins/{name}/patch.diff"],
+        r = subprocess.run(["patch", "-p1", "-s", "-F0", "--no-backup-if-mismatch", "-d", tmp, "-i", f"{V}/twins/{name}/patch.diff"],
                            capture_output=True, text=True)
         if r.returncode != 0:
             return name, None, None, "patch failed: " + r.stdout[:200]
